@@ -62,6 +62,8 @@ type RunConfig struct {
 	FinalStop   bool           `json:"final_stop"`             // the action list ends with an explicit stop
 	PSFirst     int            `json:"ps_first_pct,omitempty"` // when both netlink clients wait: chance (percent) that the periodic one is served first (0 = 50)
 	CoLoc       bool           `json:"coloc,omitempty"`     // SMF 1 sends from SMF 0's IP address, another port
+	LogYield    int            `json:"log_yield_pct,omitempty"` // percent of go-upf's log statements that park their goroutine for a few ns (needs a debug/trace log level)
+	FreePlan    bool           `json:"free_plan,omitempty"` // lock-step phase of a free-running seed: the workload favours periodic URRs
 	FreeRun     bool           `json:"free_run,omitempty"`  // C17: execute the action list in free-running mode (free.go)
 	FQDNMask    int            `json:"fqdn_mask,omitempty"`    // bit i: SMF i's Node ID is an FQDN, resolved through the simulator
 	NoPeek      bool           `json:"no_peek,omitempty"`      // never read go-upf's internal state (race-detector runs)
@@ -105,6 +107,8 @@ type Sim struct {
 	stepA  atomic.Int64 // the same, for go-upf's goroutines (sockets, kernel, log)
 	kick   chan struct{}
 
+	yielders atomic.Int64 // goroutines parked in yieldHook
+	yieldOn  atomic.Bool
 	free     bool // free-running mode (free.go): go-upf's goroutines never take s.emu
 	freeDone chan struct{}
 	byAddr   map[string]*SMF
@@ -367,12 +371,13 @@ func (s *Sim) pendingReports() int {
 
 // ---- time and quiescence -------------------------------------------------------------
 
-// bump moves the fake clock by two nanoseconds so that every quiescent interval has its
+// bump moves the fake clock by four nanoseconds so that every quiescent interval has its
 // own residue (all configured durations are whole milliseconds). Everything the lock-step
-// scheduler and go-upf's timers do therefore happens at EVEN nanoseconds; detached
-// producers (action "detach") wake at odd ones, alone, so that no two goroutines the
-// simulator does not order ever become runnable in the same instant.
-func (s *Sim) bump() { time.Sleep(2 * time.Nanosecond) }
+// scheduler and go-upf's timers do therefore happens at instants that are 0 modulo 4;
+// detached producers (action "detach") wake at odd ones and goroutines parked at a log
+// statement (yieldHook) at 2 modulo 4, so that goroutines the simulator does not order
+// do not become runnable in the same instant.
+func (s *Sim) bump() { time.Sleep(4 * time.Nanosecond) }
 
 // schedPick chooses among the sockets with a request pending (names sorted: main, ps).
 func (s *Sim) schedPick(n int) int {
@@ -432,7 +437,7 @@ func (s *Sim) settle() {
 			}
 			if s.cfg.KernLatency > 0 && !s.tearing && guard <= 120 && (r.Op == "add-create" || r.Op == "add-update" || r.Op == "del" || r.Op == "multi" || r.Op == "report" || r.Op == "get") {
 				s.fired("dp.latency", 1)
-				time.Sleep(time.Duration(s.cfg.KernLatency)*time.Millisecond + 2*time.Nanosecond)
+				time.Sleep(time.Duration(s.cfg.KernLatency)*time.Millisecond + 4*time.Nanosecond)
 				synctest.Wait()
 			}
 			s.kern.handle(r)
@@ -442,8 +447,57 @@ func (s *Sim) settle() {
 			s.forwardReport(0)
 			continue
 		}
+		if s.yielders.Load() > 0 && guard < 100000 {
+			// a goroutine is parked at a log statement (yieldHook): the step is not over
+			s.bump()
+			continue
+		}
 		return
 	}
+}
+
+// yieldHook turns go-upf's log statements into scheduling points ("buggify"): with debug
+// logging on, a seed-chosen subset of them parks the calling goroutine for a few simulated
+// nanoseconds, so that the other goroutines (and the simulated kernel) get to run in the
+// middle of functions that have no blocking operation of their own. The lock-step
+// scheduler does not end a step while anybody is parked. Parked goroutines wake at
+// instants that are 2 modulo 4; the scheduler's own are 0 modulo 4, detached producers'
+// are odd.
+type yieldHook struct{ s *Sim }
+
+func (h yieldHook) Levels() []logrus.Level {
+	return []logrus.Level{logrus.ErrorLevel, logrus.WarnLevel, logrus.InfoLevel, logrus.DebugLevel, logrus.TraceLevel}
+}
+
+func (h yieldHook) Fire(e *logrus.Entry) error {
+	s := h.s
+	if !s.yieldOn.Load() {
+		return nil
+	}
+	m := e.Message
+	if len(m) > 20 {
+		m = m[:20]
+	}
+	now := int64(s.since())
+	x := s.hash("yield", hashStr(m), uint64(now))
+	if int(x%100) >= s.cfg.LogYield {
+		return nil
+	}
+	d := int64(2 + 4*((x>>8)%80))
+	for (now+d)%4 != 2 {
+		d++
+	}
+	if strings.HasPrefix(e.Message, "ticker[") {
+		// a ticker goroutine between taking a tick and posting it: nothing the step's
+		// oracles look at depends on it, so the scheduler does not wait for it — the next
+		// action may be delivered while it is parked
+		time.Sleep(time.Duration(d))
+		return nil
+	}
+	s.yielders.Add(1)
+	time.Sleep(time.Duration(d))
+	s.yielders.Add(-1)
+	return nil
 }
 
 func (s *Sim) forwardReport(i int) {
@@ -522,6 +576,9 @@ func (s *Sim) boot() {
 	logger.Log.SetOutput(io.Discard)
 	logger.Log.ReplaceHooks(logrus.LevelHooks{})
 	logger.Log.AddHook(fatalHook{s})
+	if s.cfg.LogYield > 0 && !s.cfg.FreeRun {
+		logger.Log.AddHook(yieldHook{s})
+	}
 	logger.Log.ExitFunc = func(int) {
 		s.emu.Lock()
 		s.upfDead = true
@@ -596,6 +653,7 @@ func (s *Sim) boot() {
 	s.srv.Start(&s.wg)
 	s.settle()
 	s.logEvent("booted driver=%s", s.cfg.Driver)
+	s.yieldOn.Store(true)
 }
 
 func (s *Sim) peek() pfcp.VerifState {
@@ -622,6 +680,7 @@ func (s *Sim) stop1() {
 	}
 	s.stopped1 = true
 	s.logEvent("stop1")
+	s.checkTxDone()
 	pending := 0
 	for _, rx := range s.model.rx {
 		if s.since()-rx.T0 < s.model.window() {
@@ -725,6 +784,63 @@ func (s *Sim) shutdownStuck(what string) {
 	s.violate("C17", "stop.terminates", "stuck:"+stuckSignature(dump), "%s\n%s", what, dump)
 }
 
+// currentBubble returns "synctest bubble N" of the calling goroutine.
+func currentBubble() string {
+	buf := make([]byte, 256)
+	n := runtime.Stack(buf, false)
+	hdr := strings.SplitN(string(buf[:n]), "\n", 2)[0]
+	if i := strings.Index(hdr, "synctest bubble "); i >= 0 {
+		j := strings.IndexAny(hdr[i:], "]\n")
+		if j > 0 {
+			return hdr[i : i+j]
+		}
+	}
+	return ""
+}
+
+// leakedUPF looks, from outside, at the goroutines a finished bubble left behind and
+// names those that sit in go-upf code (innermost go-upf frame each, sorted, unique).
+func leakedUPF(bubble string) (string, string) {
+	if bubble == "" {
+		return "", ""
+	}
+	buf := make([]byte, 4<<20)
+	n := runtime.Stack(buf, true)
+	set := map[string]bool{}
+	var keep []string
+	for _, g := range strings.Split(string(buf[:n]), "\n\n") {
+		hdr := strings.SplitN(g, "\n", 2)[0]
+		if !strings.Contains(hdr, bubble+"]") {
+			continue
+		}
+		for _, l := range strings.Split(g, "\n")[1:] {
+			if strings.HasPrefix(l, "\t") || strings.HasPrefix(l, "created by") {
+				continue
+			}
+			if strings.Contains(l, "/verifsim.") || strings.Contains(l, "/simhook.") {
+				break // a harness goroutine
+			}
+			if strings.Contains(l, "free5gc/go-upf/internal/") || strings.Contains(l, "khirono/go-nl.") {
+				if i := strings.LastIndex(l, "("); i > 0 {
+					l = l[:i]
+				}
+				set[l[strings.LastIndex(l, "/")+1:]] = true
+				keep = append(keep, g)
+				break
+			}
+		}
+	}
+	var names []string
+	for k := range set {
+		names = append(names, k)
+	}
+	sort.Strings(names)
+	if len(keep) > 6 {
+		keep = keep[:6]
+	}
+	return strings.Join(names, "|"), strings.Join(keep, "\n\n")
+}
+
 // bubbleDump returns the stacks of go-upf goroutines (everything but the caller and
 // runtime/testing helpers).
 func bubbleDump() string {
@@ -818,6 +934,7 @@ func Run(t *testing.T, cfg RunConfig, actions []Action, verbose bool) *RunResult
 		// judged like any other C17 run); phase B executes that list free-running
 		gcfg := cfg
 		gcfg.FreeRun = false
+		gcfg.FreePlan = true
 		gres := Run(t, gcfg, nil, verbose)
 		if gres.Violation != nil || gres.Harness != "" {
 			return gres
@@ -837,6 +954,7 @@ func Run(t *testing.T, cfg RunConfig, actions []Action, verbose bool) *RunResult
 		return res
 	}
 	res := &RunResult{Config: cfg, Fired: map[string]int{}, Probes: map[string]int{}}
+	bubble := ""
 	if verbose {
 		cb, _ := json.Marshal(cfg)
 		fmt.Printf("CFG %s\n", cb)
@@ -853,6 +971,13 @@ func Run(t *testing.T, cfg RunConfig, actions []Action, verbose bool) *RunResult
 				msg := fmt.Sprint(p)
 				if strings.Contains(msg, "deadlock: main bubble goroutine has exited") {
 					// goroutines left behind: reported by the run itself where it matters
+					if res.Violation == nil && res.Harness == "" && cfg.Profile == "C17" {
+						// goroutines of go-upf that outlive Stop(), Close() and the wait group
+						if sig, dump := leakedUPF(bubble); sig != "" {
+							res.Violation = &Violation{Property: "C17", Invariant: "stop.no-leak", Signature: "leak:" + sig,
+								Detail: "after Stop(), Close() and the server's wait group returned, goroutines of go-upf are still blocked:\n" + dump}
+						}
+					}
 					if res.Violation == nil && res.Harness == "" {
 						res.Harness = "bubble ended with blocked goroutines: " + msg
 						if verbose {
@@ -871,6 +996,7 @@ func Run(t *testing.T, cfg RunConfig, actions []Action, verbose bool) *RunResult
 			}
 		}()
 		synctest.Test(t, func(t *testing.T) {
+			bubble = currentBubble()
 			s := &Sim{
 				t: t, cfg: cfg, res: res, t0: time.Now(), kick: make(chan struct{}, 1),
 				firedM: res.Fired, probeM: res.Probes, permCnt: map[int]uint64{}, verbose: verbose,
@@ -948,6 +1074,7 @@ func (s *Sim) teardown() {
 		return
 	}
 	s.tearing = true
+	s.yieldOn.Store(false)
 	s.armed = nil
 	s.armedAns = nil
 	// drop what the simulator still holds so that nothing is delivered during shutdown
